@@ -99,7 +99,15 @@ def _unquote_model(s, plus, shortcut=False):
             if a is not None and b is not None:
                 v = a * 16 + b
                 if not (v < 128):
-                    raise Unsupported('percent-decoded non-ASCII byte in a symbolic string')
+                    # a lone byte >= 0x80 is never valid UTF-8: errors='replace' yields U+FFFD.
+                    # Two or more adjacent escapes could form a valid sequence: not modelled.
+                    nxt = i + 3 < n and (cps[i + 3] == 37)
+                    prv = i >= 3 and (cps[i - 3] == 37)
+                    if nxt or prv:
+                        raise Unsupported('adjacent percent-decoded non-ASCII bytes in a symbolic string')
+                    out.append(0xFFFD)
+                    i += 3
+                    continue
                 out.append(v)
                 i += 3
                 continue
